@@ -113,6 +113,7 @@ def launchLabel (j : Json) : R Launch.Label := do
     | "wBind", [w] => pure (.wBind (← nat w))
     | "wListen", [w] => pure (.wListen (← nat w))
     | "wAnnounce", [w] => pure (.wAnnounce (← nat w))
+    | "wLost", [w] => pure (.wLost (← nat w))
     | "release", [t] => pure (.release (← nat t))
     | "ret", [t] => pure (.ret (← nat t))
     | "raised", [t] => pure (.raised (← nat t))
